@@ -162,7 +162,7 @@ Proof.
 Qed.
 
 Lemma alloc_node_ext : forall h nd, heap_ext h (fst (alloc_node h nd)).
-Proof. intros. split; cbn; [apply stor_ext_refl|now exists [nd]]. Qed.
+Proof. intros. split; cbn; [apply stor_ext_same; reflexivity|now exists [nd]]. Qed.
 
 Definition lf_ok (leaff : path -> heap -> view -> heap * view) : Prop :=
   forall p h v, stor_ext h (fst (leaff p h v)) /\ hnodes (fst (leaff p h v)) = hnodes h.
@@ -236,8 +236,10 @@ Proof.
       destruct (ents_get (nents n0) k) as [[d|m]|].
       * now inversion H.
       * eapply IH; eauto.
-      * cbn in H. destruct (bind _ n k _) as [h2 [|e]] eqn:Eb.
-        -- apply bind_stor in Eb. cbn in Eb. rewrite <- Eb. eapply IH; eauto.
+      * unfold alloc_node in H. cbv beta iota zeta in H.
+        destruct (bind _ n k _) as [h2 [|e]] eqn:Eb.
+        -- apply bind_stor in Eb. cbn [hstor] in Eb. rewrite <- Eb.
+           exact (IH h2 (List.length (hnodes h)) val h' o H).
         -- inversion H; subst. apply bind_stor in Eb. exact Eb.
 Qed.
 
@@ -286,11 +288,18 @@ Proof.
 Qed.
 
 (* ------------------------------------------------------------------ every class but the in-place ones: no cell written *)
+Arguments update_n : simpl never.
+Arguments set_tuple : simpl never.
+Arguments map_tree : simpl never.
+Arguments fuel_of : simpl never.
+
 Definition writes_possible (i : instr) : bool :=
   match classify i with CInplace | CBest => true | _ => false end.
 
 Ltac pure_solve :=
-  repeat destr_match; cbn; try apply stor_ext_refl;
+  repeat destr_match;
+  repeat match goal with H : alloc_node _ _ = (_, _) |- _ => unfold alloc_node in H; inversion H; subst; clear H end;
+  cbn; try apply stor_ext_refl; try (apply stor_ext_same; reflexivity);
   try (match goal with
        | H : map_tree _ _ _ _ _ _ _ = Some (_, _) |- _ =>
            eapply map_tree_ext in H;
@@ -326,4 +335,38 @@ Proof.
   - (* IUnary *) pure_solve.
   - (* IBinary *) pure_solve.
   - (* IContig *) pure_solve.
+Qed.
+
+(* ------------------------------------------------------------------ histories *)
+Lemma run_pure : forall prog s,
+  forallb (fun i => negb (writes_possible i)) prog = true -> stor_ext (hp s) (hp (run s prog)).
+Proof.
+  induction prog as [|i t IH]; intros s H; cbn in *.
+  - apply stor_ext_refl.
+  - apply andb_true_iff in H. destruct H as [H1 H2]. apply negb_true_iff in H1.
+    eapply stor_ext_trans; [apply step_pure; exact H1|apply IH; exact H2].
+Qed.
+
+Lemma run_inplace : forall prog s,
+  forallb (fun i => match classify i with CInplace => negb (is_setu i) | _ => false end) prog = true ->
+  inplace_frame (hp s) (hp (run s prog)) /\ regs (run s prog) = regs s.
+Proof.
+  induction prog as [|i t IH]; intros s H; cbn in *.
+  - split; [apply frame_refl|reflexivity].
+  - apply andb_true_iff in H. destruct H as [H1 H2].
+    destruct (classify i) eqn:Ec; try discriminate. apply negb_true_iff in H1.
+    destruct (step_inplace_frame s i Ec H1) as [F R]. destruct (IH (fst (step s i)) H2) as [F2 R2].
+    split; [eapply frame_trans; eauto|congruence].
+Qed.
+
+(* ------------------------------------------------------------------ D75: set_ below a missing node *)
+Definition d75_state : st :=
+  mkSt (mkHeap [[1%Z; 2%Z]] [mkNode [("a"%string, RLeaf (mkView 0 [0; 1]))] false]) [RLeaf (mkView 0 [0; 1]); RNode 0].
+
+Lemma setu_refuted :
+  exists s r p v, classify (ISetU r p v) = CInplace /\ snd (step s (ISetU r p v)) = Done /\
+                  hnodes (hp (fst (step s (ISetU r p v)))) <> hnodes (hp s).
+Proof.
+  exists d75_state, 1, ["x"%string; "q"%string], 0. split; [reflexivity|]. split; [vm_compute; reflexivity|].
+  vm_compute. discriminate.
 Qed.
